@@ -20,7 +20,7 @@ RULE = ('families of 1-4 delegation models: the ADMs of 2-3 generated site aggre
         'merge/unmerge/snapshot/rollback of length <=10. One evaluation = one merge order or one interleaving; distinct by (family '
         'hash, order/ops); non-trivial when at least two models share an element')
 REQUIRED = ['model-keyed-by-its-own-graph-id', 'families', 'orders', 'clause:union', 'clause:contributors', 'clause:delegations-keyed-by-model', 'clause:order-independent',
-            'clause:sources-untouched', 'clause:merge-unmerge-inverse', 'clause:rollback-restores', 'shared-elements-seen',
+            'clause:sources-untouched', 'clause:merge-unmerge-inverse', 'clause:rollback-restores', 'clause:rollback-to-older-of-two-snapshots', 'shared-elements-seen',
             'interleavings', 'shared-edges-seen']
 ASSUMPTIONS = ['merge/unmerge run on a harness class NxCBM(NetworkXPropertyGraph, ABCCBMPropertyGraph) that borrows the real functions '
                'of Neo4jCBMGraph, with neo4j_cbm.Neo4jADMGraph pointed at NetworkXADMGraph for the run; APOC mergeNodes semantics on a '
@@ -291,6 +291,30 @@ def one_family(ctx, imp, tag):
             ctx.violation('C14/merge-order-dependent', 'the result does not depend on merge order',
                           dict(w, order_a=list(vals[0][0]), order_b=list(o), diff=canon.diff(vals[0][1], r)))
             return
+    # two snapshots outstanding at once, the model changing in between, rollback to the OLDER one
+    if len(gids) >= 2:
+        cbm = fresh_cbm()
+        hist = []
+        try:
+            a, b = rng.sample(gids, 2)
+            cbm.merge_adm(adm=by_id[a])
+            s1 = cbm.snapshot()
+            st1 = sem_graph(canon.graph_snapshot(imp, cbm.graph_id))
+            cbm.merge_adm(adm=by_id[b])
+            s2 = cbm.snapshot()
+            hist = [['merge', a], ['snapshot', s1], ['merge', b], ['snapshot', s2], ['rollback', s1]]
+            cbm.rollback(graph_id=s1)
+            ctx.count('clause:rollback-to-older-of-two-snapshots')
+            now = sem_graph(canon.graph_snapshot(imp, cbm.graph_id) or {'nodes': {}, 'edges': {}})
+            if now != st1:
+                ctx.violation('C14/rollback-does-not-restore', 'rolling back to a snapshot restores the combined model as it was',
+                              dict(w, history=hist, same_id=(s1 == s2), diff=canon.diff(st1, now)))
+                return
+            if s2 != s1 and canon.graph_snapshot(imp, s2) is not None:
+                imp.delete_graph(graph_id=s2)
+        except Exception as e:
+            ctx.violation('C14/interleaving-raises', f'{type(e).__name__}: {str(e)[:200]}', dict(w, history=hist))
+            return
     # random interleavings of merge / unmerge / snapshot / rollback
     for it in range(ctx.pick(2, 6)):
         cbm = fresh_cbm()
@@ -311,8 +335,17 @@ def one_family(ctx, imp, tag):
                     hist.append(['unmerge', g])
                 elif r < 0.85 and merged:
                     sid = cbm.snapshot()
-                    saved[sid] = (list(merged), sem_graph(canon.graph_snapshot(imp, cbm.graph_id)))
                     hist.append(['snapshot', sid])
+                    if sid in saved:
+                        ctx.count('snapshots-outstanding-together')
+                        if saved[sid][1] != sem_graph(canon.graph_snapshot(imp, cbm.graph_id)):
+                            ctx.violation('C14/snapshot-replaces-an-outstanding-one', 'rolling back to a snapshot taken before restores the '
+                                          'combined model as it was then: a later snapshot must not take the place of an earlier one that '
+                                          'has not been rolled back', dict(w, history=hist, snapshot_id=sid))
+                            return
+                    elif saved:
+                        ctx.count('snapshots-outstanding-together')
+                    saved[sid] = (list(merged), sem_graph(canon.graph_snapshot(imp, cbm.graph_id)))
                 elif saved:
                     sid = rng.choice(sorted(saved))
                     m0, s0 = saved.pop(sid)
